@@ -8,7 +8,7 @@ case "$P" in
   *) git apply "$P" || { echo "patch does not apply"; exit 2; } ;;
 esac
 cd /verif && ./check "$PID" --tier "$TIER" > /tmp/try_patch.$$.log 2>&1; rc=$?
-git -C /repo checkout -- .
+git -C /repo checkout -- . ; git -C /repo clean -fdq
 grep -E "^(VIOLATION|KNOWN|INCONCL|HELD|  violated)" /tmp/try_patch.$$.log | cut -c1-260 | head -${LINES_MAX:-8}
 tail -3 /tmp/try_patch.$$.log | grep -E "tier=" | cut -c1-200
 rm -f /tmp/try_patch.$$.log
